@@ -201,12 +201,15 @@ def totalName (lv : List (Name × Nat)) (k : Name) : LName :=
   | some _ => plain (k ++ "__total")
   | none => plain k
 
+/-- an unmapped reaction: labelled arguments read the totals, stoichiometry unchanged -/
+def unmappedRxn (lv : List (Name × Nat)) (r : BRxn) : LRxn :=
+  { name := plain r.name, fn := r.fn, args := r.args.map (totalName lv),
+    stoich := r.stoich.map fun kv => (plain kv.1, kv.2) }
+
 def buildRxn (lv : List (Name × Nat)) (maps : List (Name × List Nat)) (r : BRxn) :
     Except LErr (List LRxn) :=
   match maps.lookup r.name with
-  | none =>
-    pure [{ name := plain r.name, fn := r.fn, args := r.args.map (totalName lv),
-            stoich := r.stoich.map fun kv => (plain kv.1, kv.2) }]
+  | none => pure [unmappedRxn lv r]
   | some lm => isotopomerReactions lv r lm
 
 /-- `LabelMapper.build_model(initial_labels)`.  Derived parameters keep their argument names and
@@ -280,6 +283,14 @@ instance (lv : List (Name × Nat)) (r : BRxn) : Decidable (DistinctOccurrences l
     sum of its isotopomers, any other name reads itself -/
 def totalsEnv (lv : List (Name × Nat)) (σ : LName → Rat) (a : Name) : Rat :=
   if labelsOf lv a > 0 then totalOf σ a (labelsOf lv a) else σ (plain a)
+
+/-- what the model-level dynamics statement asks of a base reaction: a mapped reaction is mass
+    action with distinct labelled occurrences and a map covering the product atoms; an unmapped
+    reaction does not touch labelled compounds -/
+def RxnOk (lv : List (Name × Nat)) (maps : List (Name × List Nat)) (r : BRxn) : Prop :=
+  match maps.lookup r.name with
+  | some lm => nProd lv r ≤ lm.length ∧ MassAction lv r ∧ DistinctOccurrences lv r
+  | none => (∀ kv ∈ r.stoich, lv.lookup kv.1 = none) ∧ (r.stoich.map (·.1)).Nodup
 
 /-! ### numeric reading of a whole labelled model (driver side of the tie) -/
 
